@@ -26,7 +26,7 @@ from .. import tlc
 from ..common import Ctx, setup_path
 
 CFG = """CONSTANTS Inputs = %(Inputs)s SmallInputs = %(Small)s NCols = %(NCols)d Workers = %(Workers)s
-  HasInline = %(HasInline)s MaxCalls = %(MaxCalls)d MaxFaults = %(MaxFaults)d
+  HasInline = %(HasInline)s MaxCalls = %(MaxCalls)d MaxFaults = %(MaxFaults)d PersistentPool = FALSE
 SPECIFICATION %(Spec)s
 INVARIANT Transparent
 INVARIANT NoSharing
@@ -59,6 +59,18 @@ def model(ctx, inputs, small, ncols, workers, has_inline, maxcalls, maxfaults, l
         if never:
             ctx.machinery_error("Assembly.tla: actions never taken (vacuity): %r" % never)
     return st
+
+
+def persistent_pool_diagnostic(ctx):
+    """the design hazard behind several seeded defects: a pool kept between calls serves later calls with the element lists
+    its workers inherited at fork time -- with PersistentPool = TRUE the model must violate Transparent"""
+    cfg = (CFG % {"Inputs": fmt({"i1", "i2"}), "Small": fmt(set()), "NCols": 2, "Workers": "{1, 2}", "HasInline": "TRUE", "MaxCalls": 2, "MaxFaults": 0,
+                  "Spec": "Spec", "Extra": ""}).replace("PersistentPool = FALSE", "PersistentPool = TRUE")
+    res = tlc.run_tlc("Assembly", cfg, timeout=900)
+    out = "Transparent violated (as it must be)" if res.violated == "Transparent" else "NOT violated: %r" % (res.violated or res.machinery_error,)
+    if res.violated != "Transparent":
+        ctx.spec_drift("Assembly.tla with a persistent pool no longer violates Transparent: %s" % out)
+    return out
 
 
 def behaviours(ctx, inputs, small, workers, has_inline, num, depth, seed):
@@ -290,6 +302,7 @@ def run(prop, tier, seed):
     tmp = tempfile.mkdtemp(prefix="cache.", dir=tlc._scratch())
     runs = []
     all_events = []
+    pool_diag = persistent_pool_diagnostic(ctx)
     try:
         mdir = os.path.join(tmp, "m")
         os.makedirs(mdir)
@@ -366,7 +379,7 @@ def run(prop, tier, seed):
         "states": sum(m["tlc"]["distinct"] for m in models), "transitions": sum(m["tlc"]["generated"] for m in models),
         "traces_validated_against_impl": sum(r["scripts"] for r in runs),
         "samples": [{k: v for k, v in e.items()} for e in all_events[1:4]],
-        "exhaustive": True, "models": models, "replays": runs, "binding_selftest": st_self,
+        "exhaustive": True, "models": models, "persistent_pool_diagnostic": pool_diag, "replays": runs, "binding_selftest": st_self,
         "rule": "Assembly.tla exhaustive for the listed constants; TLC-simulated behaviours + fixed fault histories executed on real files and real pools, bitwise comparison, judged by TraceAssembly",
     }
     ctx.assumptions = [
